@@ -171,6 +171,14 @@ void slicer_run(lzma_stream *strm, const uint8_t *in, size_t in_size,
 void slice_plan_random(vrng *r, slice_plan *p);
 const char *slice_mode_name(int mode);
 
+/// Guard-page windows for monitors that drive lzma_code() themselves:
+/// the returned input window ends at a PROT_NONE page (contents copied from
+/// src); the output window ends at one and is preceded by a canary.
+uint8_t *vh_in_window(const uint8_t *src, size_t n);
+uint8_t *vh_out_window(size_t n);
+bool vh_out_canary_ok(void);
+size_t vh_window_max(void);
+
 /// Per-thread CPU time in seconds.
 double cpu_now(void);
 
